@@ -93,7 +93,7 @@ def gen_cases(tier, seed):
         for k in range(n):
             cen = [cg.dyadic(line[k] * x / nrm, 16) for x in dirn]
             basis.append(cg.shell(rng, rng.choice([0, 0, 1, 2, 3]), K=rng.randint(1, 4), M=rng.randint(1, 2), lo=0.05, hi=500.0,
-                                  bits=10 if quick else 24, cen=cen))
+                                  bits=24, cen=cen))
         c = {"id": d + 1, "basis": basis}
         if d % 2 == 1:
             # the tolerance has to reach the kernel through every dispatch path: all-Cartesian, all-spherical and mixed
